@@ -257,6 +257,15 @@ def _one_run(ctx, case, shared, second=False):
             holders.setdefault(t, []).append(n)
     dup = {t.decode(): ns for t, ns in holders.items() if len(ns) > 1}
     ctx.check(not dup, "detail.no-payload-delivered-twice", lambda: {"dup": dup, **detail()})
+    # ---- a subclass's addDetail is the way in ---------------------------------------------------------
+    if program.get("hook_adddetail") and not env.tags("use_fixture"):
+        # (fixture details are copied in by gather_details, which writes the dict itself: programs with fixtures are
+        # left out)  Everything else the outcome carries - tracebacks, reasons, failed expectations, mismatch details -
+        # was attached through the overridable addDetail
+        hooked = {e[2] for e in env.tags("adddetail_hook")}
+        around = sorted(n for n in delivered if n not in hooked)
+        ctx.check(not around, "detail.attached-through-addDetail",
+                  lambda: {"delivered without passing the subclass's addDetail": around, "hooked": sorted(hooked), **detail()})
     return nontrivial
 
 
@@ -394,6 +403,10 @@ def run(ctx):
             break
         prog = progen.random_program(rng, features=FEATURES, p_raise=0.4, max_cleanups=4)
         case = {"prog": _sanitise(prog)}
+        if rng.random() < 0.3:
+            prog["hook_adddetail"] = True
+        if rng.random() < 0.15 and not prog.get("decor"):
+            prog["runner_attaches"] = True
         r = rng.random()
         if r < 0.15:
             case["runner"] = "sync"
